@@ -163,6 +163,7 @@ def report(prop, pmod, results, tier, seed, t0):
     matched_ids = set()
     fuzz_total = 0
     seen_obligations = {}
+    selfcheck = []
 
     for r in results:
         key = r['contract']
@@ -252,7 +253,7 @@ def report(prop, pmod, results, tier, seed, t0):
                 continue
             proved = all(o['discharged'] == o['paths'] for o in r['obligations']) and st == 'ok' and r['obligations']
             if proved:
-                crashes.append((key, 'ENGINE SELF-CHECK: all obligations discharged but native evaluation fails on %r' % (fl,)))
+                selfcheck.append((key, fl, list(r.get('callee_contracts') or [])))
             else:
                 violations.append((key + '#runtime', dict(fl, confirmed=True, obligation=key + '#runtime-contract'), None))
         if fz.get('error'):
@@ -260,6 +261,17 @@ def report(prop, pmod, results, tier, seed, t0):
         functions.append(finfo)
         for cc in r.get('callee_contracts') or []:
             pass
+
+    # "proved but fails natively": a modular proof rests on the contracts of the callees.  If one of those contracts is itself violated in this
+    # run, the native failure is a consequence of that violation (reported as such); otherwise the engine contradicts itself: checker error.
+    violated = {name.split('#')[0] for name, _, _ in violations}
+    for key, fl, callees in selfcheck:
+        broken = [c for c in callees if c in violated or any(v.startswith(c + '[') for v in violated)]
+        if broken:
+            violations.append((key + '#runtime', dict(fl, confirmed=True, obligation=key + '#runtime-contract',
+                                                      note='all obligations of this function are discharged modulo the contract of %s, which is violated in this run' % ', '.join(broken)), None))
+        else:
+            crashes.append((key, 'ENGINE SELF-CHECK: all obligations discharged but native evaluation fails on %r' % (fl,)))
 
     # drift guard against the ledger
     drift = []
